@@ -11,7 +11,8 @@ from . import pool
 
 EXPLANATION = (
     "Static decision of the structural clauses of C03.  (1) K1: the three holder lists and the free-resource counters are "
-    "written only in ResourcePool.__init__ / run_one_tick.  (2) K4 typestate transfer table: every membership change in "
+    "written only in ResourcePool.__init__ / run_one_tick.  (2) each pool owns its three lists (fresh empty list in __init__, no class-level "
+    "object of that name); K4 typestate transfer table: every membership change in "
     "run_one_tick classifies into one of the four documented moves; the resource deltas control-equivalent with each move "
     "are exactly the prescribed ones (new->active: -a.cpu/-a.ram of the assignment the container was built from; "
     "active->suspending: none; suspending->suspended under is_suspended(): +c.assignment.cpu/ram; active->gone under "
